@@ -134,6 +134,12 @@ Failed(e) ==
   \cup Chk("C20.repeats",       (ph = "open" /\ e.ev = "Close" /\ kind = "flate" /\ accel /\ flushes = 0
                                  /\ period \in 1..64 /\ acc >= 65536 /\ level \in {-1, 1, 2}) =>
              emitted + e.bytes <= acc \div 32 + 1200)
+  \* C14, converse: every call returned nil, so the destination holds a complete valid stream of all the data
+  \cup Chk("C14.converse",      (ph = "open" /\ e.ev = "Close" /\ e.err = "nil") =>
+             /\ Contentful(e) /\ e.ref.st = "done" /\ e.ref.len = acc /\ e.std.ok /\ e.std.st = "done" /\ e.std.len = acc)
+  \* C16: the bytes emitted up to the first successful Close are a complete valid stream of the data written
+  \cup Chk("C16.first_close_valid", (ph = "open" /\ e.ev = "Close" /\ e.err = "nil") =>
+             /\ Contentful(e) /\ e.ref.st = "done" /\ e.ref.len = acc /\ e.std.ok /\ e.std.st = "done" /\ e.std.len = acc)
   \* ---- the destination fails during this call -------------------------------
   \cup Chk("C14.reported",      ph = "failing" => e.err = "dst")
   \cup Chk("C14.count",         (ph = "failing" /\ e.ev = "Write") => e.ret <= e.n)
